@@ -308,6 +308,8 @@ def merge(records):
         t = r.get("t")
         if t == "violation":
             k = r["key"]
+            if isinstance(r.get("witness"), dict) and r.get("_pass") and "pass" not in r["witness"]:
+                r["witness"]["pass"] = r["_pass"]          # bin/check --replay re-runs the pass (variant, environment) that saw it
             v = viols.get(k)
             if v is None:
                 viols[k] = dict(r)
